@@ -1,5 +1,6 @@
 """C08 - decoding any byte string terminates with bounded work and memory."""
 from harness import buffers
+from harness.rxamb import kernels  # noqa: F401  (K4: regex loops applied by the decoders)
 
 META = {
     'level': 'model_checking',
@@ -23,12 +24,23 @@ META = {
                     'bare decoders up to 10/9/9 bytes',
     },
     'outside': 'a hang or super-linear blow-up that needs more set-up bytes than the bound; running '
-               'time as such (only loop/call counts are measured)',
+               'time as such (only loop/call counts are measured, plus - kernel K4 - exponential '
+               'backtracking of any regular expression the decoders apply: every unbounded repeat B* is '
+               'shown unambiguous, w in L(B) and w in L(B B+) unsat, for words of any length); time '
+               'spent inside other C-level calls',
     'cuts': ['exception message formatting'],
 }
 
 
 def partitions(tier, seed):
+    from harness.c09 import TABLE_CLASSES_ALL
+    parts = _partitions(tier, seed)
+    for p in parts:
+        p.amplify = True
+    return parts
+
+
+def _partitions(tier, seed):
     from harness.c09 import TABLE_CLASSES_ALL
     if tier == 'quick':
         return buffers.parts_for('c08', tier, raw_max=13, m_extra=(2, 5), hdr_extra=(2, 3),
